@@ -49,7 +49,8 @@ def c05(tier):
 
 
 # ---------------------------------------------------------------------------------------------
-def pipe_units(tag, mode, tier, integ="generic", physs=(1, 2, 3), timeout=120):
+def pipe_units(tag, mode, tier, integ="generic", physs=(1, 2, 3), timeout=None):
+    timeout = timeout or (120 if tier == "quick" else 900)
     from vpkg import alpha
     out = []
     gen = integ == "generic"
@@ -128,7 +129,7 @@ def c03(tier):
     for u in r:
         u["params"]["entry"] = {1: "flat_file", 2: "flat_file", 3: "stream_frames"}[u["params"]["phys"]] if u["params"]["delimited"] else "stream_frames"
         u["params"]["setcmp"] = u["params"]["phys"] == 3  # rdflib's GRAPHS path goes through a Dataset (a set)
-        u["timeout"] = 300
+        u["timeout"] = 300 if tier == "quick" else 1200
     if tier == "quick":
         r = [u for u in r if u["params"]["phys"] != 3 or u["params"]["fixed"][0] == 0]
     sp = spec_units(tier)
